@@ -24,10 +24,18 @@ TV      (a) every rendering is sent back as {text, abstract lines} and Present!L
         error} validated line by line by Trace_Zone; a rejected line is re-judged through Gen_Zone
         "file" + replay so that the finding key is computed in one place.
 
+        (c) `zone follow`: every record text of harness/lib/zoo (77 RR types) in first / second (owner omitted) / third (TTL omitted)
+        position of a three-record zone, in 9 spellings of the record bodies (plain, trailing comment, trailing blanks, CRLF,
+        RDATA in parentheses over two lines, broken inside the parentheses without / with a comment, RFC 3597 \\# form, no final
+        line end): per-line events judged by Zone.tla (RDATA opaque: the octets of the record parsed alone); dns.NewRR of the
+        single record with and without final line end and dns.ReadRR of the zone checked by the harness.
+
 Mutants (checks/mutants/C06/*.diff; `cp -r /repo /tmp/zone-x && git -C /tmp/zone-x apply <diff> &&
 VERIF_REPO=/tmp/zone-x bin/check C06 quick` -> exit 1, seed 1):
   generate-ignores-inherited-ttl  re-introduces the defect repaired in /repo 4d32f83 ($GENERATE sub-parser starts at 3600)
                                                                                 GEN seq/idx + TV   zone/generate:ttl:$TTL, :last, :default
+  ipseckey-slurp-remainder     reverse of /repo f5422ab: IPSECKEY reads into the next line       TV follow   zone/rr:follow:IPSECKEY:<spelling>, zone/readrr:first:IPSECKEY:<spelling>
+  cert-slurp-remainder         the same slip in CERT (shows the family is generic)              TV follow   zone/rr:follow:CERT:<spelling>, zone/readrr:first:CERT:<spelling>
   ttl-directive-not-sticky     a stated TTL overrides $TTL for later lines      GEN seq/idx + TV   zone/rr:ttl:$TTL, zone/include:ttl:$TTL
   origin-resets-owner          $ORIGIN also replaces the carried owner          GEN seq/idx + TV   zone/rr:owner
   class-default-forgotten      omitted class repeats the last class (CH)        GEN seq/idx + TV   zone/rr:class, zone/include:class
@@ -234,6 +242,69 @@ def record_tv(ctx, binp, nzones, nproc, par=4):
     vp.parallel([lambda k=k: one(k) for k in range(nproc)], maxpar=par)
 
 
+def follow_keys(evs, bad, failed_single):
+    """Finding keys of rejected line events of the follow family.  fam = follow|<spelling>|<T1>|<T2>|<T3>.  The record that
+    breaks is blamed on its own type when that type also fails alone in this spelling (or stands first), otherwise on the
+    type of the record BEFORE it (a parser that reads into, or leaves unread part of, the next line)."""
+    out = {}
+    failed_single = set(failed_single)
+    for i in bad:                      # a type that breaks in first position is itself to blame in the other positions too
+        f = evs[i - 1].get("fam", "").split("|")
+        if evs[i - 1].get("ev") == "line" and len(f) == 5 and evs[i - 1]["ln"] == 1:
+            failed_single.add((f[2], f[1]))
+    for i in sorted(bad):
+        e = evs[i - 1]
+        f = e.get("fam", "").split("|")
+        if e.get("ev") != "line" or len(f) != 5:
+            out.setdefault("zone/trace:" + e.get("ev", "?"), e)
+            continue
+        v, types, ln = f[1], f[2:], e["ln"]
+        if ln == 1 or (types[ln - 1], v) in failed_single:
+            out.setdefault("zone/rr:follow:%s:%s" % (types[ln - 1], v), e)
+        else:
+            out.setdefault("zone/rr:record-after:%s:%s" % (types[ln - 2], v), e)
+    return out
+
+
+def follow_run(ctx, binp, name="follow.ndjson"):
+    out = os.path.join(ctx.out, name)
+    s = ctx.run_json(binp, ["follow", out], timeout=1200)
+    tr = ctx.tlc_trace("Trace_Zone", out, xmx="3g", timeout=3000)
+    evs = vp.read_ndjson(out)
+    if not tr.accepted and not tr.bad and tr.rejected_at:
+        raise vp.Infra("Trace_Zone stuck at line %s of %s" % (tr.rejected_at, out))
+    failed_single = set()
+    for k in (s.get("notes", {}).get("mismatch_counts") or {}):
+        p = k.split(":")
+        if p[0] == "zone/newrr":
+            failed_single.add((p[1], p[2]))
+    # after a rejected line the candidate states are the spec's own successors: only the first rejection of a zone counts
+    first, seen = [], set()
+    for i in sorted(tr.bad or []):
+        j = i - 1
+        while evs[j]["ev"] != "start":
+            j -= 1
+        if j not in seen:
+            seen.add(j)
+            first.append(i)
+    return s, tr, evs, follow_keys(evs, first, failed_single)
+
+
+def follow_tv(ctx, binp):
+    """Every zoo record (every RR type) in first / second / third position of a three-record zone, in 9 spellings
+    (harness/cmd/zone/follow.go): per-line events judged by Zone.tla; NewRR / ReadRR checked by the harness."""
+    s, tr, evs, keys = follow_run(ctx, binp)
+    vp.absorb(ctx, s)
+    with vp._lock:
+        ctx.traces += max(0, (tr.hwm or 0) - len(tr.bad or []))
+    for k, e in keys.items():
+        j = evs.index(e)
+        while evs[j]["ev"] != "start":
+            j -= 1
+        ctx.candidate(k, "a record of the follow family is not what its line denotes (records returned: %d, error: %s)" % (len(e["recs"]), e["err"]),
+                      {"follow": e["fam"], "text": evs[j].get("text"), "event": {k2: e[k2] for k2 in ("ln", "recs", "err")}})
+
+
 def run(ctx):
     serialise_scratch(ctx)
     binp = ctx.build("zone")
@@ -259,7 +330,7 @@ def run(ctx):
             G("tree", 2, 1, [0]),                           # include trees with directories and decoys, FS and os file system
             G("file", 0, 1, [0], cases=QUIRKS),
         ], maxpar=6)
-        vp.parallel([lambda: spell_tv(ctx, spells), lambda: record_tv(ctx, binp, 50, 3, par=3)])
+        vp.parallel([lambda: spell_tv(ctx, spells), lambda: record_tv(ctx, binp, 50, 3, par=3), lambda: follow_tv(ctx, binp)])
     else:
         idx = [{"c": rnd.randrange(8), "q": biased(rnd, rnd.randrange(4, 9))} for _ in range(4000)] + repeats()
         jobs = [
@@ -274,7 +345,8 @@ def run(ctx):
         jobs += [G("seq", 3, 32, [k]) for k in rnd.sample(range(32), 8)]      # 1/4 of the 8 x 42^3
         jobs += [G("idx", 0, 1, [0], cases=idx[k::4]) for k in range(4)]
         vp.parallel(jobs, maxpar=8)
-        vp.parallel([lambda: spell_tv(ctx, spells, nchunks=8, cap=240000, rnd=rnd), lambda: record_tv(ctx, binp, 300, 6, par=6)])
+        vp.parallel([lambda: spell_tv(ctx, spells, nchunks=8, cap=240000, rnd=rnd), lambda: record_tv(ctx, binp, 300, 6, par=6),
+                     lambda: follow_tv(ctx, binp)])
     ctx.assumptions += [
         "AMBIG (admitted either way): owner/TTL state carried out of an included file or a $GENERATE back into the includer (a per-run policy, all 16 combinations); "
         "unconstrained: no TTL ever stated and none configured, omitted owner on the first record of a file, relative name or @ with no origin, "
@@ -300,6 +372,9 @@ def given(case):
 
 def confirm(ctx, binp, c):
     case = c["case"]
+    if "follow" in case:          # re-run the family in a fresh process and look for the same finding
+        s, tr, evs, keys = follow_run(ctx, binp, "follow-again.ndjson")
+        return c["key"] in keys or any(m["key"] == c["key"] for m in s["mismatches"])
     if "cfg" not in case or "lines" not in case:
         return True
     ms = rejudge(ctx, binp, given(case))
@@ -311,6 +386,12 @@ def replay(ctx, path):
     binp = ctx.build("zone")
     rp = json.load(open(path))
     case = rp["case"]
+    if "follow" in case:
+        if confirm(ctx, binp, {"key": rp["key"], "case": case}):
+            print("VIOLATION property=%s replay=%s" % (ctx.id, path))
+            return 1
+        print("replay: discrepancy no longer present")
+        return 0
     ms = rejudge(ctx, binp, given(case))
     if any(m["key"] == rp["key"] for m in ms):
         print("VIOLATION property=%s replay=%s" % (ctx.id, path))
